@@ -479,6 +479,37 @@ def check(facts, rep, tier, cfg):
                                 "to the tunnel if the client sent bytes right behind its request, and is dropped")
         rep.floor("C14.R5", "serve_connection_with_upgrades calls of the tunnel service", len(served), 1)
         rep.floor("C14.R5", "downcasts of the upgraded connection", len(want_types), 1)
+    # ---- R6 the serving path does no panicking deadline arithmetic on configured durations
+    rep.rule("C14.R6", "a valid upgrade is served under every timeout setting: the connection-serving code of the server does not compute a deadline "
+                       "with the panicking `Instant + Duration` on a configured (non-constant) duration - `no timeout` is represented by the "
+                       "largest duration, for which that addition overflows and the connection task dies before the 101 is written")
+    k6 = 0
+    bad6 = 0
+    crate6 = facts.crate("rusty_penguin_lib")
+    for b in (crate6.bodies if crate6 else []):
+        if "/server/" not in b.file or "::tests::" in b.path:
+            continue
+        tr6 = None
+        for bi, t in b.calls():
+            c = callee(t)
+            if not c:
+                continue
+            if "time::" in c["path"] or "Instant" in c["path"] or "Duration" in c["path"]:
+                k6 += 1
+            if c["name"] in ("add", "add_assign", "sub") and "Instant" in c["path"] and "Duration" in c["path"] and len(t["args"]) > 1:
+                tr6 = tr6 or Tracer(facts, b)
+                rhs = tr6.operand(t["args"][1])
+                if const_eval(rhs) is None and not (strip(rhs).kind in ("const", "constx")):
+                    bad6 += 1
+                    rep.bad("C14.R6", "no-panicking-deadline-arithmetic/%s" % b.path.split("::{")[0], "%s (%s)" % (loc_str(t["loc"]), b.path),
+                            "`Instant %s Duration` on a configured duration (`%s`) in the server's connection path: with the timeout disabled the "
+                            "duration is the maximum and the operation panics, so the connection is dropped before any answer - a valid, "
+                            "authenticated upgrade gets no 101 and no tunnel (use checked_add / a far-future clamp)" % (
+                                "+" if c["name"].startswith("add") else "-", fmt(rhs)[:60]))
+    if crate6 is not None and any("/server/" in b.file for b in crate6.bodies):
+        if not bad6:
+            rep.ok("C14.R6", "no-panicking-deadline-arithmetic", "", "%d time-related calls inspected in the server, none adds a configured duration to an Instant" % k6, nontrivial=False)
+        rep.floor("C14.R6", "time-related calls inspected in the server", k6, 3)
     rep.rule("C14.S7", "no new process-wide mutable state (static cell / lock / once-cell) in the files this property is anchored in")
     import whomay
     whomay.check_new_statics(facts, rep, "C14.S7", "C14")
